@@ -294,7 +294,8 @@ func EncodeRemainLength(r io.ByteReader) (int, error) {
 	var multiplier uint32
 	for {
 		digit, err := r.ReadByte()
-		if err != nil && err != io.EOF {
+		if err != nil {
+			// including io.EOF: the integer is truncated
 			return 0, err
 		}
 		vbi |= uint32(digit&127) << multiplier
